@@ -241,6 +241,50 @@ def cleanup_history_check(p, name, c):
                     "except Exception as e:\n    print(type(e).__name__, e); same=False\nprint(same)\nsys.exit(0 if same else 1)\n")
 
 
+USER_PASS_SRC = """
+def user_pass_results(c, which):
+    # a user-defined transformer whose declared pre-/post-transformers have dependencies of their own: running it is
+    # running the dependencies (with theirs) and the pass itself in the declared order
+    import copy
+    from cirbo.core.circuit.transformer import Transformer
+    from cirbo.minimization.simplification import MergeDuplicateGates as MD, MergeUnaryOperators as MU, RemoveRedundantGates as RRG
+
+    class Identity(Transformer):
+        def __init__(self, pre=(), post=()):
+            super().__init__(pre_transformers=pre, post_transformers=post)
+
+        def _transform(self, circuit):
+            return copy.copy(circuit)
+
+    if which == 'post':
+        got = Identity(post=(MD(),)).transform(c)
+        want = MD().transform(c)
+    elif which == 'pre':
+        got = Identity(pre=(MU(),)).transform(c)
+        want = MU().transform(c)
+    else:
+        got = Identity(pre=(Identity(post=(MU(),)),), post=(Identity(post=(MD(),)),)).transform(c)
+        want = MD().transform(MU().transform(c))
+    return got, want
+"""
+exec(USER_PASS_SRC)  # noqa: S102
+
+
+def user_pass_checks(p, name, c):
+    for which in ("post", "pre", "nested"):
+        p.case(("user-pass", circ.snapshot(c)[:3], which))
+        try:
+            got, want = user_pass_results(c, which)  # noqa: F821
+            bad = None if same_circuit(got, want) else f"gives {circ.describe(got)}, the declared passes in sequence give {circ.describe(want)}"
+        except Exception as e:  # noqa: BLE001
+            bad = f"raised {type(e).__name__}: {e}"
+        if bad:
+            p.violation(f"pipeline:user-pass:{which}", f"a user-defined pass with {which} dependencies on {circ.describe(c)} {bad}",
+                        REPLAY_PRELUDE + circ.circ_src(c) + USER_PASS_SRC + f"\ntry:\n    got, want = user_pass_results(c, {which!r})\n    same = got==want and circ.netlist_of(got)==circ.netlist_of(want)\n"
+                        "except Exception as e:\n    print(type(e).__name__, e); same=False\nprint(same)\nsys.exit(0 if same else 1)\n")
+            return
+
+
 def twice_checks(p, name, c):
     for first, middle in (("MD", "MU"), ("MD", "RRG"), ("MU", "MD"), ("RRG", "MU"), ("ME", "MU")):
         if first == "ME" and len(c.inputs) > 6:
@@ -292,6 +336,7 @@ def unit(p, item, tier, seed):
         effect_checks(p, name, c)
         twice_checks(p, name, c)
         cleanup_history_check(p, name, c)
+        user_pass_checks(p, name, c)
         for spec in rnd.sample(specs, min(len(specs), 8 if tier == "quick" else 25)):
             if ("ME()" in spec or spec == "cleanup(True)") and len(c.inputs) > 6:
                 continue
